@@ -28,7 +28,7 @@ from ..x_syncnorm import normalized
 NORM_MODULES = ("tornado/locks.py", "tornado/queues.py", "tornado/gen.py", "tornado/concurrent.py", "tornado/ioloop.py", "tornado/platform/asyncio.py")
 from fractions import Fraction
 from .. import x_tdeval as tdeval
-from ..x_sync import check_none_tests, resolve_local, own_walk, own_find, node_counts, method_call_on, exit_states, reaches, handler_catches_cancel
+from ..x_sync import lambda_or_func_body_calls, check_none_tests, resolve_local, own_walk, own_find, node_counts, method_call_on, exit_states, reaches, handler_catches_cancel
 
 TECHNIQUE = "who-may-call / wrapper lint on the scheduling entries, handler-structure (exception-escape) rule, guard dominance, exhaustive folding of the delay expression, exit-state typestate of run_sync"
 EXPLANATION = (
@@ -317,6 +317,10 @@ def check_add_future(ck):
             continue
         # who invokes the lambda, and can that be synchronous?
         reg = pm.get(lam)
+        if isinstance(lam, q.FuncNode):
+            # a nested def: the registration is the call it is handed to by name
+            uses = [y for y in own_walk(fi.node) if isinstance(y, ast.Call) and any(isinstance(a, ast.Name) and a.id == lam.name for a in y.args)]
+            reg = uses[0] if len(uses) == 1 else None
         if not isinstance(reg, ast.Call):
             raise AnalysisError("%s: deferred lambda in an unrecognised position" % fi.site(lam))
         if isinstance(reg.func, ast.Attribute) and reg.func.attr == "add_done_callback" and q.dotted(reg.func.value) == fut:
@@ -482,7 +486,9 @@ def check_run_sync(ck):
             okd = q.dotted(a0) == tparam
         else:
             okd = isinstance(a0, ast.BinOp) and isinstance(a0.op, ast.Add) and any(method_call_on(p, "self", "time") for p in (a0.left, a0.right)) and any(q.dotted(p) == tparam for p in (a0.left, a0.right))
-        ck.ob("C38.run-sync", rs, c, okd and isinstance(c.args[1], ast.Name) and c.args[1].id in nested, "the deadline is now + timeout and the callback is the nested timeout callback")
+        if not (isinstance(c.args[1], ast.Name) and c.args[1].id in nested):
+            raise AnalysisError("%s: timeout callback of run_sync is not a nested function" % rs.site(c))
+        ck.ob("C38.run-sync", rs, c, okd, "the deadline is now + timeout")
         tcb = ck.use(nested[c.args[1].id]) if isinstance(c.args[1], ast.Name) and c.args[1].id in nested else None
         if tcb is not None:
             cancels = own_find(tcb, lambda x: isinstance(x, ast.Call) and isinstance(x.func, ast.Attribute) and x.func.attr == "cancel" and q.unparse(x.func.value) == cell)
@@ -531,8 +537,10 @@ def check_run_sync(ck):
         ck.ob("C38.run-sync", rn, rn.node, k == 1, "the loop is stopped when the function's future finishes: exactly one add_future(<cell>, stop) on every normal path (count=%d)" % k, construct="exit add_future=%d" % k)
     for nd, c in own_find(rn, lambda x: method_call_on(x, "self", "add_future") and len(x.args) == 2):
         lam = c.args[1]
-        ok = isinstance(lam, ast.Lambda) and any(method_call_on(x, "self", "stop") for x in ast.walk(lam.body))
-        ck.ob("C38.run-sync", rn, c, ok, "the done-callback stops the loop")
+        body_calls = lambda_or_func_body_calls(ck.repo, rn, lam)
+        if not isinstance(lam, ast.Lambda) and not body_calls:
+            raise AnalysisError("%s: done-callback of the function's future in an unrecognised shape" % rn.site(c))
+        ck.ob("C38.run-sync", rn, c, any(method_call_on(x, "self", "stop") for x in body_calls), "the done-callback stops the loop")
 
 
 def _callback_results(fi, callee_names):
